@@ -363,13 +363,47 @@ Qed.
 Lemma or_none_default l d : l <> [] -> or_default (or_none l) d = l.
 Proof. destruct l; [congruence | reflexivity]. Qed.
 
-Lemma In_ff_files_to_analyze defs exts rels exc inc f :
-  In f (ff_files_to_analyze defs exts rels exc inc) <->
-  In f (find_and_fix_paths defs rels exc inc) /\ (exts <> [] -> mem_str (suffix_of f) exts = true).
+Lemma In_find_and_fix_paths v defs rels exc inc f :
+  In f (find_and_fix_paths v defs rels exc inc) <->
+  In f rels /\ Selected (or_default (or_none inc) (fst defs)) (or_default (exclude_sentinel v exc) (snd defs)) f.
+Proof. unfold find_and_fix_paths. apply In_match_files. Qed.
+
+Lemma In_ff_files_to_analyze v defs exts rels exc inc f :
+  In f (ff_files_to_analyze v defs exts rels exc inc) <->
+  In f (find_and_fix_paths v defs rels exc inc) /\ (exts <> [] -> mem_str (suffix_of f) exts = true).
 Proof.
   unfold ff_files_to_analyze. destruct exts as [| e exts].
   - split; [intros H; split; [exact H | congruence] | intros [H _]; exact H].
   - rewrite filter_In. split; intros [H1 H2]; (split; [exact H1 |]); [intros _; exact H2 | apply H2; discriminate].
+Qed.
+
+(** Selected looks at the file-level exclude patterns only *)
+Lemma Selected_file_level inc exc f : Selected inc (file_level exc) f <-> Selected inc exc f.
+Proof.
+  unfold Selected, file_level. split; intros [Hi Hn]; (split; [exact Hi |]); intros [p [Hp [Hc Hm]]]; apply Hn; exists p.
+  - split; [apply filter_In; split; [exact Hp | rewrite Hc; reflexivity] | split; assumption].
+  - apply filter_In in Hp. split; [apply Hp | split; assumption].
+Qed.
+
+(** manifests *)
+Lemma In_manifest_candidates_named lf ef defs t exc m :
+  In m (manifest_candidates lf ef defs t exc) ->
+  exists n, In (m, n) t /\ manifest_kind_ok lf n = true /\ mem_str (path_name m) manifest_names = true.
+Proof.
+  unfold manifest_candidates. intros H.
+  assert (Hn : In m (map fst (List.filter (fun e => mem_str (path_name (fst e)) manifest_names && manifest_kind_ok lf (snd e)) t))).
+  { destruct ef; [exact H | apply filter_In in H; apply H]. }
+  apply in_map_iff in Hn. destruct Hn as [[m' n] [<- Hin]]. apply filter_In in Hin. destruct Hin as [Hin Hb].
+  apply Bool.andb_true_iff in Hb. exists n. simpl in *. split; [exact Hin | split; apply Hb].
+Qed.
+
+Lemma manifest_not_excluded_spec defs exc m : manifest_not_excluded defs exc m = true ->
+  ~ (exists p, In p (or_default (or_none (file_level exc)) (snd defs)) /\ has_colon p = false /\ GlobMatches p m).
+Proof.
+  unfold manifest_not_excluded. intros H.
+  destruct (match_files defs [m] (exclude_sentinel FileLevelOrNone exc) (Some [[42%N]])) as [| x l] eqn:E; [discriminate |].
+  assert (Hin : In x (match_files defs [m] (exclude_sentinel FileLevelOrNone exc) (Some [[42%N]]))) by (rewrite E; left; reflexivity).
+  apply In_match_files in Hin. destruct Hin as [[<- | []] [_ Hn]]. exact Hn.
 Qed.
 
 Lemma In_sast_files_to_analyze defs regdef exts has_result rels exc inc f :
